@@ -1,6 +1,8 @@
 (* Witnesses: the full-strength statements of C10 and C16 fail on the faithful model, and each
    exclusion of the partial statements is needed (dropping it alone admits a violating run).
-   Every witness is replayed on the implementation by harness/c10.py / harness/c16.py (corpus). *)
+   Every witness is replayed on the implementation by harness/c10.py / harness/c16.py (corpus).
+   The witnesses of the defects repaired in /repo since (F-C10e, f, g, j) are kept as regressions:
+   the model of the repaired code satisfies every clause on them. *)
 From PahoV Require Import Base.Prelude Link.Conn Link.ConnCheck Link.ConnInv Link.ConnStatements.
 
 Definition O (t : topcall) := mkOp t [] no_scripts.
@@ -10,64 +12,54 @@ Definition direct_cb := mkCfg false true 4.
 Definition extloop := mkCfg true false 4.
 Definition extloop_cb := mkCfg true true 4.
 
-(* F-C10h: is_connected() is true with no socket inside on_socket_unregister_write / on_socket_close *)
+(* F-C10h (open, narrowed): connect() on a live connection: connect_async() closes the socket while the
+   state is still CONNECTED, so is_connected() is true with no socket inside on_socket_unregister_write /
+   on_socket_close *)
 Definition w_H := [O (TConnect true); O (TLoopRead (IConnack 0)); O (TConnect false)].
 Lemma C10_connected_refuted : ~ C10_connected_full.
 Proof. intros H. specialize (H extloop w_H eq_refl). vm_compute in H. discriminate. Qed.
 
-(* F-C10e: disconnect() while the DISCONNECT cannot be written, then CONNACK, then the write *)
-Definition w_E := [O (TConnect true); Os TDisconnect [OBlock]; O (TLoopRead (IConnack 0)); O TLoopWrite].
-Lemma C10_E_needed : c10_ops_sel true true true true true false direct w_E = true
-  /\ c10_connected_x_ok (optrace direct w_E) = false.
-Proof. vm_compute. split; reflexivity. Qed.
-(* ... and the same connection lost instead: result code not success although disconnect() was called *)
-Definition w_E2 := [O (TConnect true); Os TDisconnect [OBlock]; O (TLoopRead (IConnack 0)); O (TLoopRead IEof)].
-Lemma C10_E_needed_rc : c10_ops_sel true true true true true false direct w_E2 = true
-  /\ c10_one_disconnect_ok (optrace direct w_E2) = false.
-Proof. vm_compute. split; reflexivity. Qed.
-
-(* F-C10f: a reply written from inside loop_read fails: two on_disconnect *)
-Definition w_F := [O (TConnect true); Os (TLoopRead IPingreq) [OFail]].
-Lemma C10_F_needed : c10_ops_sel true true true true false true direct w_F = true
-  /\ c10_one_disconnect_ok (optrace direct w_F) = false.
-Proof. vm_compute. split; reflexivity. Qed.
-Lemma C10_one_disconnect_refuted : ~ C10_one_disconnect_full.
-Proof. intros H. specialize (H direct w_F eq_refl). vm_compute in H. discriminate. Qed.
-
-(* F-C10g: reconnect() inside the on_disconnect that announces a written DISCONNECT *)
-Definition w_G := [O (TConnect true);
-                   mkOp TDisconnect [] (mkScr [] [] [] [] [] [] [] [[AReconnect true]])].
-Lemma C10_G_needed : c10_ops_sel true false true true true true direct w_G = true
-  /\ c10_one_disconnect_ok (optrace direct w_G) = false.
-Proof. vm_compute. split; reflexivity. Qed.
-
-(* F-C10d: publish() inside on_socket_open *)
+(* F-C10d (open, narrowed to direct-write mode): publish() inside on_socket_open is written at once *)
 Definition w_D := [mkOp (TConnect true) [] (mkScr [] [] [[APublish0]] [] [] [] [] [])].
-Lemma C10_D_needed : c10_ops_sel false true true true true true direct_cb w_D = true
-  /\ c10_wire_ok (optrace direct_cb w_D) = false.
+Lemma C10_D_needed : c10_ops_sel false true direct_cb w_D = true /\ c10_wire_ok (optrace direct_cb w_D) = false.
 Proof. vm_compute. split; reflexivity. Qed.
 Lemma C10_wire_refuted : ~ C10_wire_full.
 Proof. intros H. specialize (H direct_cb w_D eq_refl). vm_compute in H. discriminate. Qed.
+(* ... in external-loop mode CONNECT is queued ahead of it (0ed8c5c); a reconnect() there still breaks the clause *)
+Definition w_D_ext := [mkOp (TConnect true) [] (mkScr [] [] [[APublish0; ADisconnect]] [] [] [] [] []); O TLoopWrite].
+Definition w_D_ext_reconnect := [mkOp (TConnect true) [] (mkScr [] [] [[AReconnect true]] [] [] [] [] []); O TLoopWrite].
+Lemma C10_D_ext : c10_ops_ok extloop_cb w_D_ext = true /\ c10_wire_ok (optrace extloop_cb w_D_ext) = true
+  /\ c10_ops_sel false true extloop_cb w_D_ext_reconnect = true /\ c10_wire_ok (optrace extloop_cb w_D_ext_reconnect) = false.
+Proof. vm_compute. repeat split; reflexivity. Qed.
 
-(* F-C10i: reconnect() inside on_socket_unregister_write during the teardown after disconnect() *)
-Definition w_R := [O (TConnect true); O TDisconnect;
-                   mkOp (TLoopRead IEof) [] (mkScr [] [] [] [] [] [[AReconnect true]] [] [])].
-Lemma C10_R_needed : c10_ops_sel true true false true true true extloop w_R = true
-  /\ c10_one_disconnect_ok (optrace extloop w_R) = false.
+(* F-C10i (open): disconnect() inside on_socket_unregister_write during a keepalive teardown: the result code
+   was computed before; disconnect() inside on_socket_close while reconnect() replaces the socket: the new
+   socket is opened in state DISCONNECTED *)
+Definition w_R := [O (TReconnect true); mkOp (TLoopMisc MDue) [] (mkScr [] [] [] [] [] [[ADisconnect]] [] [])].
+Lemma C10_R_needed : c10_ops_sel true false extloop w_R = true /\ c10_one_disconnect_ok (optrace extloop w_R) = false.
 Proof. vm_compute. split; reflexivity. Qed.
-(* ... disconnect() inside on_socket_close while reconnect() replaces the socket *)
 Definition w_R2 := [O (TReconnect true);
                     mkOp (TReconnect true) [OFail] (mkScr [] [] [] [[ADisconnect]] [] [] [] [])].
-Lemma C10_R_needed_close : c10_ops_sel true true false true true true direct_cb w_R2 = true
+Lemma C10_R_needed_close : c10_ops_sel true false direct_cb w_R2 = true
   /\ c10_one_disconnect_ok (optrace direct_cb w_R2) = false.
 Proof. vm_compute. split; reflexivity. Qed.
+Lemma C10_one_disconnect_refuted : ~ C10_one_disconnect_full.
+Proof. intros H. specialize (H extloop w_R eq_refl). vm_compute in H. discriminate. Qed.
 
-(* F-C10j: a failing reconnect() inside the on_connect that reports a refused connection *)
+(* ---- regressions: witnesses of the repaired F-C10e, F-C10f, F-C10g, F-C10j and of the first form of F-C10i ---- *)
+Definition w_E := [O (TConnect true); Os TDisconnect [OBlock]; O (TLoopRead (IConnack 0)); O TLoopWrite].
+Definition w_E2 := [O (TConnect true); Os TDisconnect [OBlock]; O (TLoopRead (IConnack 0)); O (TLoopRead IEof)].
+Definition w_F := [O (TConnect true); Os (TLoopRead IPingreq) [OFail]].
+Definition w_G := [O (TConnect true);
+                   mkOp TDisconnect [] (mkScr [] [] [] [] [] [] [] [[AReconnect true]])].
 Definition w_C := [O (TConnect true);
                    mkOp (TLoopRead (IConnack 5)) [] (mkScr [[AReconnect false]] [] [] [] [] [] [] [])].
-Lemma C10_C_needed : c10_ops_sel true true true false true true direct w_C = true
-  /\ c10_one_disconnect_ok (optrace direct w_C) = false.
-Proof. vm_compute. split; reflexivity. Qed.
+Definition all_c10 (c : cfg) (ops : list op) : bool :=
+  c10_ops_ok c ops && c10_connected_x_ok (optrace c ops) && c10_one_disconnect_ok (optrace c ops) && c10_wire_ok (optrace c ops).
+Lemma C10_repaired_witnesses :
+  all_c10 direct w_E = true /\ all_c10 direct w_E2 = true /\ all_c10 direct w_F = true /\
+  all_c10 direct w_G = true /\ all_c10 direct w_C = true.
+Proof. vm_compute. repeat split; reflexivity. Qed.
 
 (* F-C16a: reconnect() inside on_socket_unregister_write: the new socket is announced before the
    old one's on_socket_close *)
